@@ -26,6 +26,16 @@ class Val:
         return "%s(%r)" % (self.kind, self.a)
 
 
+class ClosureSym(str):
+    """the text `closure` (what a closure value has always looked like in keys and renderings) that also knows which closure it is and
+    what it captured, so that `opt.and_then(closure)` / `.filter(closure)` / `.is_some_and(closure)` can be expanded"""
+    def __new__(cls, path, fields):
+        o = super().__new__(cls, "closure")
+        o.path = path
+        o.fields = fields
+        return o
+
+
 def canon_place(body, place, env_alias, depth=0):
     """Canonical textual name of a place: root local replaced by what it aliases."""
     l = place["l"]
@@ -145,6 +155,7 @@ class Table:
         self.rows = []        # (constraints list, result)
         self.effects = []     # parallel to rows: [(canonical place, Val)] stores through references / upvars on that path
         self.calls = []       # parallel to rows: [(callee, [argument descriptions])] in path order
+        self.ends = []        # parallel to rows: the block of `stop` the path ended in (None: it returned)
         self._mem = {}
         self._run()
 
@@ -358,6 +369,41 @@ class Table:
                 return [([], some_arm(a0.a[2][0]) if a0.a[1] == "Some" else none_arm(), (), ())]
             key = self._raw(a0)
             return [([("is", key, "Some")], some_arm(Val("place", key + "@Some.0")), (), ()), ([("is", key, "None")], none_arm(), (), ())]
+        # Option::and_then / filter / is_some_and / is_none_or with a closure of the workspace: by the variant of the option, the Some arm
+        # through the closure's own decision table (its captured values and its argument substituted)
+        if nm.startswith("core::option::Option::") and short in ("and_then", "filter", "is_some_and", "is_none_or") and len(args) == 2 \
+                and args[1].kind == "sym" and isinstance(args[1].a, ClosureSym):
+            a0, f = args
+            OPT = "core::option::Option"
+            none_res = {"and_then": Val("agg", (OPT, "None", [])), "filter": Val("agg", (OPT, "None", [])), "is_some_and": Val("const", False), "is_none_or": Val("const", True)}[short]
+
+            def some_rows(v):
+                rows_f = self._closure_rows(f.a, [v])
+                if rows_f is None:
+                    return None
+                out = []
+                for cons, res, eff, calls in rows_f:
+                    if short in ("and_then", "is_some_and", "is_none_or"):
+                        out.append((cons, res, eff, calls))
+                    else:           # filter: keep the value iff the predicate holds
+                        if res.kind == "const" and isinstance(res.a, bool):
+                            out.append((cons, Val("agg", (OPT, "Some", [v])) if res.a else Val("agg", (OPT, "None", [])), eff, calls))
+                        else:
+                            key = self._raw(res)
+                            out.append((cons + [("cond", key, ("not", 0))], Val("agg", (OPT, "Some", [v])), eff, calls))
+                            out.append((cons + [("cond", key, 0)], Val("agg", (OPT, "None", [])), eff, calls))
+                return out
+            if a0.kind == "agg" and a0.a[1] in ("Some", "None"):
+                if a0.a[1] == "None":
+                    return [([], none_res, (), ())]
+                r = some_rows(a0.a[2][0])
+                if r is not None:
+                    return r
+            else:
+                key = self._raw(a0)
+                r = some_rows(Val("place", key + "@Some.0"))
+                if r is not None:
+                    return [([("is", key, "None")], none_res, (), ())] + [([("is", key, "Some")] + c_, res_, e_, k_) for c_, res_, e_, k_ in r]
         # Option::unwrap_or_else(opt, f) / Option::unwrap_or(opt, d): the payload when there is one, else what the fallback gives
         if nm.startswith("core::option::Option::") and short in ("unwrap_or_else", "unwrap_or") and len(args) == 2:
             a0, f = args
@@ -391,6 +437,26 @@ class Table:
                         [(n2, tuple(self._subst_text(a2, args) for a2 in as2)) for n2, as2 in calls] + [(nm, tuple(vdesc(a) for a in args))]))
         return out
 
+    def _closure_rows(self, clos, call_args):
+        """rows of a workspace closure applied to `call_args`: [(constraints, result, effects, calls)], parameters and captured values
+        substituted; None if the closure is not a small loop-free body"""
+        cb = self.prog.body(clos.path)
+        if cb is None or cb.npath in self._stack or len(cb.loops()) or len(cb.blocks) > 80:
+            return None
+        try:
+            sub = Table(self.prog, cb, max_paths=256, inline=max(self.inline - 1, 1), _stack=self._stack, opaque=self.opaque, only=self.only)
+        except TooComplex:
+            return None
+        if not sub.rows or len(sub.rows) > 64:
+            return None
+        args = [Val("agg", ("tuple", "", list(clos.fields)))] + list(call_args)
+        out = []
+        for (cons, res), eff, calls in zip(sub.rows, sub.effects, sub.calls):
+            ec = [(c[0], self._subst_text(c[1], args), c[2]) for c in cons]
+            out.append((ec, self._subst_val(res, args), [(self._subst_text(k2, args), self._subst_val(v2, args)) for k2, v2 in eff],
+                        [(n2, tuple(self._subst_text(a2, args) for a2 in as2)) for n2, as2 in calls]))
+        return out
+
     def _run(self):
         body = self.body
         count = [0]
@@ -414,6 +480,7 @@ class Table:
                 rows.append((list(cons), Val("agg", ("state", "", vals))))
                 self.effects.append(list(env.get(("eff",), ())))
                 self.calls.append(list(env.get(("calls",), ())))
+                self.ends.append(bb)
                 return
             if bb in onpath:
                 raise TooComplex("cycle at bb%d in %s" % (bb, body.npath))
@@ -460,6 +527,8 @@ class Table:
                         v = Val("agg", ("tuple", "", fields))
                     elif rv.get("agg") == "array":
                         v = Val("agg", ("array", "", fields))
+                    elif rv.get("agg") == "closure" and rv.get("closure"):
+                        v = Val("sym", ClosureSym(norm(rv["closure"]), fields))
                     else:
                         v = Val("sym", rv.get("agg"))
                 elif k == "binop":
@@ -513,6 +582,7 @@ class Table:
                 rows.append((list(cons), env.get(0, Val("sym", "?"))))
                 self.effects.append(list(env.get(("eff",), ())))
                 self.calls.append(list(env.get(("calls",), ())))
+                self.ends.append(None)
                 if len(rows) > self.max_paths:
                     raise TooComplex("too many paths in %s" % body.npath)
                 return
